@@ -125,6 +125,36 @@ class Session:
         self.ev.append({"op": "input", "obj": k, "g": pr})
         return k
 
+    def build(self, atom_attrs, bond_attrs):
+        """graph_from_molecule on the caller's dictionaries (which it may update in place); the log states them as they were"""
+        from project import render_attrs, fingerprint, MEANINGFUL
+        keys = list(atom_attrs)
+        pos = {k: i for i, k in enumerate(keys)}
+        atoms = []
+        for k in keys:
+            d = atom_attrs[k]
+            atoms.append({"z": fingerprint(d.get("atomic_number", 0)), "m": fingerprint(d.get("mass", 0)), "r": fingerprint(d.get("rad", 0)),
+                          "attrx": render_attrs(d, skip=("partition", "invariant_code", TAG))})
+        bonds = []
+        for (a, b), d in bond_attrs.items():
+            lo, hi = sorted((pos[a], pos[b]))
+            bonds.append([lo, hi, render_attrs(d)])
+        try:
+            g = guarded(lambda: tgu.graph_from_molecule(atom_attrs, bond_attrs), 120)
+        except BaseException as ex:  # noqa
+            self.ev.append({"op": "raised", "call": "graph_from_molecule", "clause": "R:graph_from_molecule-raised-" + type(ex).__name__})
+            return None
+        pr = project(g)
+        if "bad" in pr:
+            self.ev.append({"op": "raised", "call": "graph_from_molecule", "clause": "R:graph_from_molecule-returned-something-unprojectable"})
+            return None
+        k = self._new(g)
+        self.ev.append({"op": "build", "obj": k, "atoms": atoms, "bonds": bonds, "g": pr})
+        # tags for later calls (same graph, attributes added)
+        tag_graph(g)
+        self.ev.append({"op": "derive", "obj": self._new(g), "from": k, "perm": list(range(g.number_of_nodes())), "kind": "nonidentity", "g": project(g)})
+        return self._next - 1
+
     def derive(self, src, g2, perm, kind="relabel"):
         """g2 is claimed to be objs[src] with label i renamed to perm[i] (checked by the spec)"""
         k = self._new(g2)
@@ -264,7 +294,7 @@ class Session:
         return r
 
     # --- molfile texts
-    def read(self, lines, fmt, pfx, mol=None, floats=None, eol="\n", via_file=False, via_path=None):
+    def read(self, lines, fmt, pfx, mol=None, floats=None, eol="\n", via_file=False, via_path=None, suffix=".mol"):
         from tucan.io import graph_from_molfile_text, graph_from_file
         import textgen
         k = self._next
@@ -280,7 +310,8 @@ class Session:
                 g = graph_from_file(via_path)           # the caller put the text there
             elif via_file:
                 import tempfile
-                with tempfile.NamedTemporaryFile("w", suffix=".mol", delete=False, newline="", encoding="utf-8") as f:
+                e["suffix"] = suffix
+                with tempfile.NamedTemporaryFile("w", suffix=suffix, delete=False, newline="", encoding="utf-8") as f:
                     f.write(text)
                 try:
                     g = graph_from_file(f.name)
